@@ -435,6 +435,11 @@ pub fn t_write_body<const K: usize>(ops: [u8; K], old_start: isize, new_start: i
     let mut lines = [[0u8; 2]; K];
     let mut i = 0;
     while i < K { lines[i] = [alpha(raw[i]), b'\n']; i += 1; }
+    // the equality pattern among the lines is part of the instance: distinct script positions carry distinct lines
+    // (a context line is one position shared by both sides), so the layout of the written hunk is determined and only
+    // the byte values are left to the solver
+    i = 0;
+    while i < K { let mut j = i + 1; while j < K { kani::assume(lines[i][0] != lines[j][0]); j += 1; } i += 1; }
     let (mut last_old, mut last_new) = (K, K);
     i = 0;
     while i < K { if ops[i] != b'+' { last_old = i; } if ops[i] != b'-' { last_new = i; } i += 1; }
